@@ -653,7 +653,7 @@ pub fn run(ctx: &Ctx) {
         }
         let s = out.out_str();
         let ran = s.contains("AX : ");
-        if lay.max_total > 65536 && (ran || !s.contains("Error")) {
+        if lay.max_total > 65536 && (ran || !looks_like_diagnostic(&s)) {
             ctx.fail(Failure { key: "c12|cli|over-64k-not-diagnosed".into(), what: format!("family {}: segment total {} bytes was not diagnosed by the CLI (output starts {:?})", name, lay.max_total, s.chars().take(80).collect::<String>()), replay });
             continue;
         }
